@@ -8,7 +8,8 @@ RULE = ("exhaustive matrix: (read, write, connect) in {None, 0, 1 ns, 1 ms, u64:
         "usize::MAX} through TimeoutSettings::new and through serde (serde_json::from_str); command-line flags (clap try_parse_from) "
         "over {omitted, 0, 00, +0, 1, u64::MAX, 2^64, -1, 1.5, abc, empty, nan, inf, 1e30, 1e-10, 0.0}^3 x retries spellings; Default. Every accepted value is then "
         "used to open a real UDP and a real TCP socket (apply_timeout's unwraps and connect_timeout are live) and, with the extreme "
-        "retry counts, for one scripted query per modelled protocol family. Oracle: zero anywhere => InvalidInput on every path; otherwise "
+        "retry counts, for one scripted query per modelled protocol family; the extreme durations (u64::MAX s, 1 ns, None, mixed) "
+        "on the largest answered exchanges of every family. Oracle: zero anywhere => InvalidInput on every path; otherwise "
         "accepted unchanged and usable. Non-trivial = every case (all are distinct configurations).")
 ASSUMPTIONS = ["what clap's and serde's derive macros generate is modelled (field-wise construction), not verified",
                "std: set_read_timeout(Some(0)) is Err, connect_timeout(0) is Err, huge durations are clamped (exercised on real sockets)"]
@@ -102,6 +103,23 @@ def run(rep, tier, seed, replay=None):
                 cid = f"{v.id}r{n % 7}"
                 cases.append(c.line(cid))
                 base_want[cid] = v.want
+
+    # extreme accepted durations on answered queries of every family (single-datagram, split, multi-packet, challenged …
+    # whatever the generator produces): a computation made with a duration (a deadline, a product) must not panic
+    TDS = [f"{UMAX}:0,{UMAX}:0,{UMAX}:0", "0:1,0:1,0:1", f"{UMAX}:999999999,-,0:1", f"-,{UMAX}:0,-", f"0:1,{UMAX}:0,{UMAX}:999999999"]
+    for fam, d in netprops.FAMILIES.items():
+        if "retries" not in d or d.get("nargs", 0) <= d["retries"]:
+            continue
+        vs = [x for x in netprops.valid_cases(fam, seed + 18, 60 if tier == "quick" else 400) if not x.notwf]
+        # the largest exchanges first (split / multi-packet replies), then the rest
+        vs.sort(key=lambda x: -len(x.line))
+        for i, v in enumerate(vs[: (10 if tier == "quick" else 80)]):
+            c = v.case()
+            c.opts = c.opts + ["td=" + TDS[i % len(TDS)]]
+            cid = f"{v.id}td{i % len(TDS)}"
+            cases.append(c.line(cid))
+            base_want[cid] = v.want
+            rep.count("extreme-durations:" + fam)
 
     def oracle(case, impl, model, panic):
         out = netprops.crash_oracle(case, impl, model, panic)
